@@ -1,1 +1,130 @@
-(* stub: to be written *)
+(* C15 — all return and file modes deliver the same model.
+   Only statements here; model and proofs live in theories/FileModes.v.
+   `ListOps`: bytes = list N.  `RleOps`: the run-length byte strings the harness evaluates.
+   v : onnx_variant ranges over the ASSUMED behaviours of onnx.save_model (append/truncate sidecar,
+   CWD-relative existence check on/off); thr is the spill threshold; h the history of exports to p. *)
+From Coq Require Import NArith String List.
+From J2O Require Import FileModes.
+Import ListNotations.
+Open Scope N_scope.
+
+(* after ANY history of exports to one path (standard/web, any sizes, any order, any length, raising exports
+   included, any prior directory contents) the file loads to the model of the last export that did not
+   raise, every initializer byte-identical *)
+Theorem C15_load_after_history :
+  forall (v : onnx_variant) (thr : N) (p : string) (f0 : fs ListOps) (h : list (step ListOps)),
+    let st := run ListOps v thr p (init ListOps f0) h in
+    match st_last ListOps st with
+    | Some m => load ListOps (st_fs ListOps st) p = Some m
+    | None => st_fs ListOps st = f0
+    end.
+Proof. exact load_after_history. Qed.
+Print Assumptions C15_load_after_history.
+
+(* full strength: "load p = model of the LAST export" — false of the unchanged code (FileExistsError when the
+   export is issued from inside the output directory and a sidecar exists) *)
+Theorem C15_load_after_save_refuted :
+  ~ (forall (v : onnx_variant) (thr : N) (p : string) (f0 : fs ListOps) (h : list (step ListOps)) (s : step ListOps),
+       load ListOps (st_fs ListOps (run ListOps v thr p (init ListOps f0) (h ++ [s]))) p
+       = Some (st_model ListOps s)).
+Proof. exact load_after_save_refuted. Qed.
+Print Assumptions C15_load_after_save_refuted.
+
+(* ... true exactly when the last export does not raise *)
+Theorem C15_load_after_save_partial :
+  forall (v : onnx_variant) (thr : N) (p : string) (f0 : fs ListOps) (h : list (step ListOps)) (s : step ListOps),
+    save ListOps v thr (st_fs ListOps (run ListOps v thr p (init ListOps f0) h)) p s <> None ->
+    load ListOps (st_fs ListOps (run ListOps v thr p (init ListOps f0) (h ++ [s]))) p = Some (st_model ListOps s).
+Proof. exact load_after_save_partial. Qed.
+Print Assumptions C15_load_after_save_partial.
+
+(* ... in particular for web exports and for exports issued from a CWD holding no file named like the sidecar *)
+Theorem C15_load_after_save_clean :
+  forall (v : onnx_variant) (thr : N) (p : string) (f0 : fs ListOps) (h : list (step ListOps)) (s : step ListOps),
+    st_mode ListOps s = Web \/ st_cwd ListOps s = CwdClean ->
+    load ListOps (st_fs ListOps (run ListOps v thr p (init ListOps f0) (h ++ [s]))) p = Some (st_model ListOps s).
+Proof. exact load_after_save_clean. Qed.
+Print Assumptions C15_load_after_save_clean.
+
+(* ... and unconditionally for a writer without the CWD-relative existence check *)
+Theorem C15_load_after_save_no_cwd_check :
+  forall (v : onnx_variant) (thr : N) (p : string) (f0 : fs ListOps) (h : list (step ListOps)) (s : step ListOps),
+    ov_cwd_check v = false ->
+    load ListOps (st_fs ListOps (run ListOps v thr p (init ListOps f0) (h ++ [s]))) p = Some (st_model ListOps s).
+Proof. exact load_after_save_no_cwd_check. Qed.
+Print Assumptions C15_load_after_save_no_cwd_check.
+
+(* web export after any history: no external reference, no sidecar, and the main file ALONE loads *)
+Theorem C15_web_self_contained :
+  forall (v : onnx_variant) (thr : N) (p : string) (f0 : fs ListOps) (h : list (step ListOps)) (s : step ListOps),
+    st_mode ListOps s = Web ->
+    let f' := st_fs ListOps (run ListOps v thr p (init ListOps f0) (h ++ [s])) in
+    refs_of ListOps f' p = [] /\ lookup ListOps f' (sidecar p) = None /\
+    exists mf, lookup ListOps f' p = Some mf /\ load ListOps [(p, mf)] p = Some (st_model ListOps s).
+Proof. exact web_self_contained. Qed.
+Print Assumptions C15_web_self_contained.
+
+(* after any history every external reference of the main file names p's sidecar and lies in [st_lo, size):
+   the region written by the last export that did not raise *)
+Theorem C15_stale_sidecar_unreferenced :
+  forall (v : onnx_variant) (thr : N) (p : string) (f0 : fs ListOps) (h : list (step ListOps)) (m : model ListOps),
+    let st := run ListOps v thr p (init ListOps f0) h in
+    st_last ListOps st = Some m ->
+    forall loc off len, In (loc, off, len) (refs_of ListOps (st_fs ListOps st) p) ->
+      loc = sidecar p /\ st_lo ListOps st <= off /\ off + len <= sidecar_size ListOps (st_fs ListOps st) p.
+Proof. exact stale_sidecar_unreferenced. Qed.
+Print Assumptions C15_stale_sidecar_unreferenced.
+
+(* with the append writer, st_lo is the old size and every old byte range reads as before: the stale bytes
+   are exactly [0, st_lo) *)
+Theorem C15_append_keeps_old_bytes :
+  forall (v : onnx_variant) (thr : N) (f : fs ListOps) (p : string) (s : step ListOps) (f' : fs ListOps),
+    ov_writer v = WAppend -> save ListOps v thr f p s = Some f' -> lookup ListOps f' (sidecar p) <> None ->
+    region_start ListOps (ov_writer v) f p = blen ListOps (data_of ListOps f (sidecar p)) /\
+    ext ListOps (data_of ListOps f (sidecar p)) (data_of ListOps f' (sidecar p)).
+Proof. exact append_keeps_old_bytes. Qed.
+Print Assumptions C15_append_keeps_old_bytes.
+
+(* exports to p touch nothing but p and its sidecar *)
+Theorem C15_frame :
+  forall (v : onnx_variant) (thr : N) (p : string) (f0 : fs ListOps) (h : list (step ListOps)) (q : string),
+    q <> p -> q <> sidecar p -> lookup ListOps (st_fs ListOps (run ListOps v thr p (init ListOps f0) h)) q = lookup ListOps f0 q.
+Proof. exact frame. Qed.
+Print Assumptions C15_frame.
+
+(* observation (not required by C15): "the sidecar is exactly what a fresh export writes" is false ... *)
+Theorem C15_sidecar_exact_refuted :
+  ~ (forall (v : onnx_variant) (thr : N) (p : string) (f : fs ListOps) (s : step ListOps) (f' : fs ListOps),
+       save ListOps v thr f p s = Some f' ->
+       sidecar_size ListOps f' p = expected_sidecar ListOps (st_mode ListOps s) thr (st_model ListOps s)).
+Proof. exact sidecar_exact_refuted. Qed.
+Print Assumptions C15_sidecar_exact_refuted.
+
+(* ... and true when no (or an empty) sidecar existed before, or for web exports *)
+Theorem C15_sidecar_exact_partial :
+  forall (v : onnx_variant) (thr : N) (f : fs ListOps) (p : string) (s : step ListOps) (f' : fs ListOps),
+    save ListOps v thr f p s = Some f' ->
+    sidecar_size ListOps f p = 0 \/ st_mode ListOps s = Web ->
+    sidecar_size ListOps f' p = expected_sidecar ListOps (st_mode ListOps s) thr (st_model ListOps s).
+Proof. exact sidecar_exact_partial. Qed.
+Print Assumptions C15_sidecar_exact_partial.
+
+(* the two byte-string implementations satisfy the laws the theorems rest on; the run-length one is what the
+   harness evaluates, and the main theorem holds for it verbatim *)
+Theorem C15_list_bytes_laws : BlobLaws ListOps.
+Proof. exact ListLaws. Qed.
+Print Assumptions C15_list_bytes_laws.
+
+Theorem C15_rle_bytes_laws : BlobLaws RleOps.
+Proof. exact RleLaws. Qed.
+Print Assumptions C15_rle_bytes_laws.
+
+Theorem C15_rle_load_after_history :
+  forall (v : onnx_variant) (thr : N) (p : string) (f0 : fs RleOps) (h : list (step RleOps)),
+    let st := run RleOps v thr p (init RleOps f0) h in
+    match st_last RleOps st with
+    | Some m => load RleOps (st_fs RleOps st) p = Some m
+    | None => st_fs RleOps st = f0
+    end.
+Proof. exact rle_load_after_history. Qed.
+Print Assumptions C15_rle_load_after_history.
